@@ -246,9 +246,12 @@ Definition run_inner (runf : node -> path -> istate -> list diag -> list diag ->
     (p : path) (s1 : istate) (qv qp : list diag) : rres :=
   let o1 := emit p pre s1 in
   let '(s2, qv2, qp2, o2) := kids_with runf kids p 0 s1 (if fl then [] else qv) qp in
-  let o3 := if fl then flush_queue qv2 s2 else [] in
-  let qv3 := (if fl then qv else qv2) ++ emit p lsub s2 in
-  let qp3 := qp2 ++ emit p lprog s2 in
+  (* whether a deferred diagnostic is ignored is decided when its node is entered (state s1: the variable / the
+     declaration is marked as used); the queue of a subroutine is reported when it ends WITHOUT consulting the ignore
+     state again (repaired: an ignore range opened after the declaration and still open must not hide it) *)
+  let o3 := if fl then qv2 else [] in
+  let qv3 := (if fl then qv else qv2) ++ emit p lsub s1 in
+  let qp3 := qp2 ++ emit p lprog s1 in
   (s2, qv3, qp3, o1 ++ o2 ++ o3).
 
 Fixpoint run (n : node) (p : path) (s : istate) (qv qp : list diag) {struct n} : rres :=
